@@ -13,6 +13,7 @@ import torch
 from inferno import learn, neural
 from inferno.neural import Accumulator
 
+from rv import factory as fac
 from rv import trainers as tr
 from rv.monitors import c08
 
@@ -184,6 +185,20 @@ def _routing(ctx, desc, pre, post, rewards):
     acc = getattr(h.conn.updater, h.param)
     acc.upperbound(spy_u, 10.0)
     acc.lowerbound(spy_l, -10.0)
+    stray, other_conn = [], None
+    if desc["seed"] % 2 == 0:
+        # another accumulator (another connection's updater) is half-bounded afterwards, with its own function on one side only:
+        # bound functions belong to the accumulator they were configured on
+        other_conn = fac.make_connection("dense", h.dt, syn="delta", B=1, nin=2, nout=2)
+        other_conn.updater = other_conn.defaultupdater()
+
+        def other_spy(param, update, limit, **kw):
+            stray.append(tuple(update.shape))
+            return update * 0
+
+        oacc = other_conn.updater.weight
+        (oacc.upperbound if desc["seed"] % 4 == 0 else oacc.lowerbound)(other_spy, 0.5)
+        ctx.count("routing_cases_with_another_accumulator_half_bound_afterwards")
     unb = {"u": False, "l": False}
     for t in range(desc["T"]):
         rdesc = {**desc, "T": t + 1}
@@ -203,6 +218,9 @@ def _routing(ctx, desc, pre, post, rewards):
         except Exception as e:  # noqa: BLE001
             return ctx.violation(ctx.exc_signature(e, f"step.{name}.{desc['conn']}"), f"{type(e).__name__}: {str(e)[:200]}", rdesc)
         epos, eneg = orc.step(pre[t], post[t], delays, reward, desc.get("scale", 1.0))
+        if stray:
+            return ctx.violation(f"{name}.routing.part_reached_another_accumulators_bound_function",
+                                 f"step {t}: a bound function configured on another connection's accumulator received a part of shape {stray[0]}", rdesc)
         ctx.case(f"routing/{name}/{desc['conn']}/signs{desc['signs']}/{red}/{desc['reward'] if name in tr.THREE_FACTOR else '-'}")
         ctx.count("routing_steps_checked")
         if name in tr.THREE_FACTOR and desc.get("scale", 1.0) < 0:
